@@ -8,7 +8,8 @@ import OjgVerif.Gen.AsmFacts
 /-! # C20 — assembly plans evaluate totally, deterministically and as documented
 
 Over the model of `Asm/Model.lean` (heap of shared cells, the modelled functions, simple paths) and the
-specification of `Asm/Spec.lean`. `Dev.current` is the code as it is (after the fix commits 312106f, e5d206a, fb1d065, 52cf3c4, 9281d31),
+specification of `Asm/Spec.lean`. `Dev.current` is the code as it is (after the fix commits 312106f, e5d206a, fb1d065, 52cf3c4, 9281d31,
+54cf01b: no deviation is left, `Dev.current = Dev.none`),
 `Dev.before` the code before them, `Dev.beforeCondCopy` the code between the first four and 9281d31; each deviation from the documentation is stated at full strength,
 refuted by a concrete witness for the code that shows it (`…_false`, marked "before <commit>" where a
 commit repaired it) and proved for the code that does not.
@@ -64,14 +65,21 @@ theorem execute_has_recover : "Plan.Execute" ∈ Gen.AsmFacts.recoverEntryPoints
 /-- the deviation flags of `Dev.current` that can be read off the source are what the source shows:
 `lt lte gt gte` switch on the EVALUATED first argument (312106f), `evalArg` hands out a copy of a literal
 (52cf3c4), `quotient` tests its two float divisors for zero (e5d206a), the list clause of `evalValue` ends
-with a copy of the list (fb1d065 + 9281d31) -/
+with a copy of the list (fb1d065 + 9281d31), the comparison functions call the exact helpers `cmpNum` /
+`cmpIntFloat` and the chains no longer call `asFloat` (54cf01b) -/
 theorem dev_current_source :
     Dev.current.cmpUneval = !(Gen.AsmFacts.cmpSwitchSubjects.all (fun p => p.2 == "evalArg(root, at, args[0])")) ∧
     Gen.AsmFacts.cmpSwitchSubjects.map (·.1) = ["lt", "lte", "gt", "gte"] ∧
     Dev.current.litAlias = !(Gen.AsmFacts.evalArgDefault == "val = dupLiteral(arg)") ∧
     Dev.current.divZeroInf = !(Gen.AsmFacts.quotientZeroTests == 2) ∧
-    (Dev.current.condListNil || Dev.current.condListAlias) = !(Gen.AsmFacts.evalValueList == "result = dupLiteral(tv)") := by
+    (Dev.current.condListNil || Dev.current.condListAlias) = !(Gen.AsmFacts.evalValueList == "result = dupLiteral(tv)") ∧
+    Dev.current.cmpFloat = !(Gen.AsmFacts.cmpExactCalls ==
+      [("lt", "1 exact, 0 asFloat"), ("lte", "1 exact, 0 asFloat"), ("gt", "1 exact, 0 asFloat"),
+       ("gte", "1 exact, 0 asFloat"), ("equalVals", "2 exact, 3 asFloat")]) := by
   decide
+
+/-- no deviation is left: the code as it is is the documented behaviour -/
+theorem current_is_documented : Dev.current = Dev.none := rfl
 
 /-! ## 2. totality -/
 
@@ -691,13 +699,24 @@ theorem quotient_zero_current :
 /-- on the arithmetic functions the code as it is IS the documented function -/
 theorem arith_current (op : Spec.Arith) (vs : List Val) : Spec.arith Dev.current op vs = Spec.arith Dev.none op vs := rfl
 
-/-- documented comparison is by value; the code rounds integers to float64 first, so 2^53 and 2^53+1
-compare equal — known finding C20-cmp-float-2p53 -/
-theorem cmp_float_deviation :
+/-- documented comparison is by value. Before 54cf01b the code rounded integers to float64 first, so 2^53
+and 2^53+1 compared equal and `equal` was not transitive across int and float — finding
+C20-cmp-float-2p53, fixed -/
+theorem cmp_float_before_54cf01b :
     Spec.describe Dev.none b!"lt" [.int 9007199254740992, .int 9007199254740993] [] = (.ok (.bool true), []) ∧
-    Spec.describe Dev.current b!"lt" [.int 9007199254740992, .int 9007199254740993] [] = (.ok (.bool false), []) ∧
-    Spec.describe Dev.current b!"eq" [.flt (.fin false 9007199254740992 0), .int 9007199254740993, .int 9007199254740992] []
+    Spec.describe Dev.beforeCmpExact b!"lt" [.int 9007199254740992, .int 9007199254740993] [] = (.ok (.bool false), []) ∧
+    Spec.describe Dev.beforeCmpExact b!"eq" [.flt (.fin false 9007199254740992 0), .int 9007199254740993, .int 9007199254740992] []
       = (.ok (.bool true), []) := by
+  decide
+
+/-- the code as it is compares by value: 2^53 < 2^53+1, the float 2^53 is not the integer 2^53+1, MaxInt64 is
+less than the float 2^63 -/
+theorem cmp_exact_current :
+    Spec.describe Dev.current b!"lt" [.int 9007199254740992, .int 9007199254740993] [] = (.ok (.bool true), []) ∧
+    Spec.describe Dev.current b!"eq" [.flt (.fin false 9007199254740992 0), .int 9007199254740993, .int 9007199254740992] []
+      = (.ok (.bool false), []) ∧
+    Spec.describe Dev.current b!"lt" [.int 9223372036854775807, .flt (.fin false 1 63)] [] = (.ok (.bool true), []) ∧
+    Spec.describe Dev.current b!"gte" [.int 9223372036854775807, .flt (.fin false 1 63)] [] = (.ok (.bool false), []) := by
   decide
 
 /-- `[cond [true [1 2]]]`: the value is a list that is not a function call; documented "the second can
@@ -772,9 +791,15 @@ theorem lt_ints_pairwise (dev : Dev) (hd : dev.cmpFloat = false) (x : Int) (xs :
   · intro h; injection h with h; injection h
   · intro h; rw [h]
 
-/-- not so through float64: 2^53 < 2^53+1 < 2^53+2, but the chain over the rounded values fails at the
-first step although a chain over other roundings passes where a pair is out of order -/
-example : Spec.cmp Dev.current .lt [.int 9007199254740992, .int 9007199254740993, .int 9007199254740994] = .ok (.bool false) := by
+/-- the code as it is: `lt` on integers is true exactly when all pairs are in order -/
+theorem lt_ints_pairwise_current (x : Int) (xs : List Int) :
+    Spec.cmp Dev.current .lt ((x :: xs).map .int) = .ok (.bool true) ↔ (x :: xs).Pairwise (· < ·) :=
+  lt_ints_pairwise Dev.current rfl x xs
+
+/-- not so through float64 (before 54cf01b): 2^53 < 2^53+1 < 2^53+2, but the chain over the rounded values
+failed at the first step; now it holds -/
+example : Spec.cmp Dev.beforeCmpExact .lt [.int 9007199254740992, .int 9007199254740993, .int 9007199254740994] = .ok (.bool false) ∧
+    Spec.cmp Dev.current .lt [.int 9007199254740992, .int 9007199254740993, .int 9007199254740994] = .ok (.bool true) := by
   decide
 
 /-- get/getall/set/setall/del/delall with a path argument, `cond`, `asm`, `each`: the evaluator computes
